@@ -58,6 +58,9 @@ emit(const std::string& op, const std::string& ans)
   std::fputc('\n', g_ops);
   std::fputs(ans.c_str(), g_out);
   std::fputc('\n', g_out);
+  // (a crash of the implementation must not leave the two streams out of step)
+  std::fflush(g_ops);
+  std::fflush(g_out);
 }
 
 static void
@@ -68,7 +71,10 @@ oracle(bool ok, const std::string& what)
     {
       ++g_fails;
       if (g_fails <= 40)
-        std::fprintf(g_orc, "ORACLE-FAIL %s\n", what.c_str());
+        {
+          std::fprintf(g_orc, "ORACLE-FAIL %s\n", what.c_str());
+          std::fflush(g_orc);
+        }
     }
 }
 
@@ -2569,17 +2575,31 @@ run_history(vh::Rng& rng, bool thorough, int hid)
   add(pdi1, grid(*pdi1, zoom, nxy, nz, 0, shifted), "grid 5: same size, first plane " + std::to_string(shifted.z_first));
   for (std::size_t i = 1; i < pdis.size(); ++i)
     add(pdis[i].first, grid(*pdis[i].first, zoom, nxy, nz, 0, GridShape()), "grid 1, " + pdis[i].second);
-  // ---- the order: a permutation, the first geometry again in third place and at the end
+  // ---- the order: grid 1, a, grid 1, b, grid 1, c, ... so that every change of a single characteristic (voxel size only, z
+  // origin only, index range only, projection data only) occurs in both directions; a = grid 2 / 3 / 5 in turn, the others
+  // drawn from the Rng; at the end two of the others one after the other
+  std::vector<int> others;
+  for (std::size_t i = 1; i < geos.size(); ++i)
+    others.push_back((int)i);
+  for (int i = (int)others.size() - 1; i > 0; --i)
+    std::swap(others[i], others[rng.range(0, i)]);
+  {
+    static const int firsts[] = { 1, 2, 4 };
+    const int a = firsts[hid % 3];
+    others.erase(std::find(others.begin(), others.end(), a));
+    others.insert(others.begin(), a);
+  }
+  const int nvar = std::min<int>(others.size(), thorough ? 8 : 3);
   std::vector<int> order;
-  for (std::size_t i = 0; i < geos.size(); ++i)
-    order.push_back((int)i);
-  for (int i = (int)order.size() - 1; i > 0; --i)
-    std::swap(order[i], order[rng.range(0, i)]);
-  const int max_steps = thorough ? 9 : 6;
-  if ((int)order.size() > max_steps - 2)
-    order.resize(max_steps - 2);
-  order.insert(order.begin() + 2, order[0]);
-  order.push_back(order[0]);
+  for (int i = 0; i < nvar; ++i)
+    {
+      order.push_back(0);
+      order.push_back(others[i]);
+    }
+  order.push_back(0);
+  order.push_back(others[rng.range(0, (int)others.size() - 1)]);
+  if (thorough)
+    order.push_back(others[rng.range(0, (int)others.size() - 1)]);
   {
     std::ostringstream d;
     d << "history " << hid << " " << (base.blocks ? "blocks" : "cyl") << " N=" << N << " R=" << R << " span=" << span << " views=" << views
